@@ -25,7 +25,8 @@ struct locator
     T* try_get(const std::string& key = "") const
     {
         auto it = services.find(typeid(T).name() + key);
-        return it == services.end() ? nullptr : reinterpret_cast<T*>(it->second);
+        // like the real runtime: services are kept as const void* (a const object can be registered, too)
+        return it == services.end() ? nullptr : reinterpret_cast<T*>(const_cast<void*>(it->second));
     }
 
     template <typename T>
@@ -44,7 +45,7 @@ struct locator
     }
 
 private:
-    std::map<std::string, void*> services;
+    std::map<std::string, const void*> services;
 };
 } // namespace dzn
 
